@@ -112,7 +112,17 @@ D2 == { <<"D2", ow[1], Outer(ow[1], Blk(ow[2], x))>> :
 BlkR(w, x) == IF w = "rule" THEN Rule ELSE Blk(w, x)
 D3 == { <<"D3", w1, JoinKids(BlkR(w1, X1), BlkR(w2, <<S(<<"b1">>)>>))>> : w1 \in BlockW \cup {"rule"}, w2 \in BlockW \cup {"rule"} }
 D4 == { <<"D4", "para", J3(x, <<S(<<"SP">>)>>, JoinKids(y, <<NL>>))>> : x \in Inl(1, {}), y \in Inl(1, {"nobr"}) }   \* (a [[ and a later ]] in one paragraph would be a link)
-AllDocs(z) == D1 \cup D2 \cup D3 \cup D4
+\* D5: literal brackets that a per-text-run protection would miss: the opening and the closing pair
+\* in different text runs (an inline node between them), literal pairs inside the text of a real
+\* link, nested literal pairs in one run.  (The hand-written spelling of these documents reads as
+\* links - another tree, which must round-trip all the same; the Unparse spelling gives the text.)
+OpenBr == <<S(<<"x1", "SP", "[", "[", "SP", "y1", "SP">>)>>
+CloseBr == <<S(<<"SP", "x1", "]", "]", "SP", "y1">>)>>
+NestBr == <<S(<<"[", "[", "a1", "SP", "[", "[", "b1", "]", "]", "SP", "c1", "]", "]">>)>>
+D5 == { <<"D5", "split", J3(OpenBr, Wrap(w, <<S(<<"a1">>)>>), JoinKids(CloseBr, <<NL>>))>> : w \in {"B", "I", "H", "T", "E", "L"} }
+      \cup { <<"D5", "inlink", JoinKids(Wrap("L", x), <<NL>>)>> : x \in LeafBr \cup {NestBr} }
+      \cup { <<"D5", "nest", Blk(w, NestBr)>> : w \in {"para", "ul", "cell", "div"} }
+AllDocs(z) == D1 \cup D2 \cup D3 \cup D4 \cup D5
 
 (* ---------------- compact hand-written rendering ---------------- *)
 RECURSIVE Write(_), WriteList(_), WriteArgs(_, _)
